@@ -112,6 +112,7 @@ def run(R):
     R.rule("C04.count", "COUNT adds exactly 1 per admitted row with a non-NULL argument")
     R.rule("C04.percentile", "PERCENTILE picks rank floor(p * n) clamped to n - 1 with one and the same sample count n")
     _percentile_rank(R, "C04.percentile")
+    _empty_state(R, "C04.empty")
     _text_keys(R, "C04.argkey")
     _rect(R, "C04.rect")
     _transform(R)
@@ -557,6 +558,39 @@ def _count_descr(f, op, depth=8):
         else:
             out.append(o.kind)
     return sorted(set(out))
+
+
+def _empty_state(R, rid):
+    """result phase: an aggregator that accumulated nothing publishes nothing (the cell stays NULL)"""
+    P = R.prog
+    R.rule(rid, "an aggregator that has accumulated no value publishes none: in GroupAggregator::update_value a `Some(value)` is either what an "
+                "Option-returning accessor of the accumulated state gave (get / first / last / max ..) or constructed behind a test of that "
+                "state; never unconditionally (a group whose argument is NULL on every row must show NULL)")
+    f = PR.view(P, R.need_fn(AGG + "GroupAggregator::update_value"))
+    somes = [(i, st) for i, st in f.stmts() if st["k"] == "assign" and st["rv"]["k"] == "aggr" and (st["rv"].get("adt") or "") == "core::option::Option"
+             and st["rv"].get("variant") == "Some" and "model::Value" in (f.local_ty(st["pl"]["l"]) if not st["pl"]["p"] else "model::Value")]
+    n = 0
+    for bb, st in somes:
+        gs = F.guards_dominating(f, bb)
+        state_guards = []
+        for (sw, lab, tgt) in gs:
+            info = F.switch_info(f, sw)
+            if info is None:
+                continue
+            if info[0] == "discr" and info[1]["pl"]["l"] == 1 and [e for e in info[1]["pl"]["p"] if e != "*"] == []:
+                continue    # the match on the aggregator's own variant
+            state_guards.append(sw)
+        n += 1
+        if state_guards:
+            R.ok(rid, "update_value|some@%d" % n, "Some(..) constructed behind a test of the accumulated state", f.loc(bb))
+        else:
+            R.violation(rid, "update_value|unconditional-some",
+                        "GroupAggregator::update_value constructs Some(value) with no test of the accumulated state: an aggregator that received no "
+                        "non-NULL value (the argument is NULL on every row of the group) publishes a value instead of leaving the cell NULL",
+                        [f.loc(bb)])
+    if not somes:
+        R.ok(rid, "update_value|accessor", "no Some(..) is constructed: every published value is the Option an accessor of the state returned",
+             f.loc())
 
 
 def _percentile_rank(R, rid):
